@@ -737,6 +737,10 @@ def r6_temp_download(rep, src):
     rep.saw_func(f)
     tries = [s for s in f.node.body if isinstance(s, ast.Try)]
     mk = [n for n in ast.walk(f.node) if isinstance(n, ast.Assign) and isinstance(n.value, ast.Call) and norm(n.value.func) == 'tempfile.mkstemp']
+    makers = [n for n in ast.walk(f.node) if isinstance(n, ast.Call) and (norm(n.func).startswith('tempfile.') or norm(n.func) in ('mkstemp', 'mktemp', 'NamedTemporaryFile', 'mkdtemp'))]
+    if not makers and not any(isinstance(n, (ast.Import, ast.ImportFrom)) and 'tempfile' in ([a.name for a in n.names] + [getattr(n, 'module', None)]) for n in ast.walk(f.node)):
+        rep.ok('C19.R6', f.site, 'download temporary removed', 'the download creates no temporary file', nontrivial=False)
+        return
     if not mk or not isinstance(mk[0].targets[0], ast.Tuple):
         raise AnalysisError('%s: mkstemp site not found' % f.site)
     fname = norm(mk[0].targets[0].elts[1])
@@ -877,7 +881,7 @@ def r8_malformed_entries(rep, src):
     return n
 
 
-def _interpret_update(src, index, local_hash, prefix, undecodable=()):
+def _interpret_update(src, index, local_hash, prefix, undecodable=(), garbled=(), unparsable=(), unappliable=()):
     """update_file interpreted (sa.heap) on one index (paragraphs of (field, value) pairs) and one local content, with the streams,
     the downloads, the hash functions and the patch application replaced by a model: contents are named by their hashes, applying
     the patch the history lists for the current content gives the next content of the history, anything else gives garbage.
@@ -895,8 +899,7 @@ def _interpret_update(src, index, local_hash, prefix, undecodable=()):
                     cols = e.split()
                     if len(cols) == 3:
                         hist.append((cols[0], cols[2]))
-            if fld == prefix + '-Current' and val.split():
-                cur = val.split()[0]
+    cur = 'hC'         # the content the repository really holds now, whatever the index says about it
 
     def h_hash(kind):
         def hk(it, args, kw):
@@ -906,6 +909,8 @@ def _interpret_update(src, index, local_hash, prefix, undecodable=()):
             if isinstance(x, H.Ref) and it.h.is_list(x):
                 items = it.h.items(x)
                 if items and isinstance(items[0], str) and items[0].startswith('patch:'):
+                    if items[0][6:] in garbled:
+                        return 'hash of something else'        # what was downloaded is not the patch the index lists
                     return ('ph:' if kind == prefix else 'oph:') + items[0][6:]
             raise AnalysisError('C19 scenario: hash of %r' % (x,))
         return hk
@@ -920,8 +925,16 @@ def _interpret_update(src, index, local_hash, prefix, undecodable=()):
             raise H.Raised('UnicodeDecodeError', it.h.version, 0)
         return it.h.new_list(['patch:' + url.split('.diff/')[1][:-3]])
 
+    def h_ed(it, args, kw):
+        name = it.h.items(args[0])[0][6:]
+        if name in unparsable:
+            raise H.Raised('ValueError', it.h.version, 0)      # a command the ed reader does not know
+        return ('edscript', name)
+
     def h_patch_lines(it, args, kw):
         name = args[1][1] if isinstance(args[1], tuple) else None
+        if name in unappliable:
+            raise H.Raised('ValueError', it.h.version, 0)      # a command that addresses lines the file does not have
         idx = [i for i, (hh, n) in enumerate(hist) if n == name and hh == state['hash']]
         state['hash'] = (hist[idx[0] + 1][0] if idx[0] + 1 < len(hist) else cur) if idx else 'garbage'
         log.append(('apply', name))
@@ -930,7 +943,7 @@ def _interpret_update(src, index, local_hash, prefix, undecodable=()):
              'urlopen': lambda it, a, k: (log.append(('urlopen', a[0])), it.h.alloc('Stream', {}))[1],
              'PackageFile': lambda it, a, k: it.h.new_list([it.h.new_list([(x, y) for x, y in para]) for para in index]),
              'read_lines_sha256': h_hash('SHA256'), 'read_lines_sha1': h_hash('SHA1'), 'download_gunzip_lines': h_dl_patch,
-             'patches_from_ed_script': lambda it, a, k: ('edscript', it.h.items(a[0])[0][6:]), 'patch_lines': h_patch_lines,
+             'patches_from_ed_script': h_ed, 'patch_lines': h_patch_lines,
              'download_file': lambda it, a, k: (log.append(('full',)), 'FULL')[1],
              'replace_file': lambda it, a, k: log.append(('replace', state['hash'])), 'print': lambda it, a, k: None}
     heap = H.Heap(mod, hooks=hooks)
@@ -962,8 +975,8 @@ def r10_index_scenarios(rep, src):
             fields = [(prefix + '-Current', current), (prefix + '-History', '\n ' + '\n '.join(hl)), (prefix + '-Patches', '\n ' + '\n '.join(pl))]
             return [[fv for fv in fields if fv[0].split('-')[1] not in drop]]
 
-        def judge(rule, what, idx, local, must_patch, undecodable=()):
-            out, log = _interpret_update(src, idx, local, prefix, undecodable)
+        def judge(rule, what, idx, local, must_patch, undecodable=(), **faults):
+            out, log = _interpret_update(src, idx, local, prefix, undecodable, **faults)
             applied = [e[1] for e in log if e[0] == 'apply']
             fetched = [e[1] for e in log if e[0] == 'patch']
             repl = [e for e in log if e[0] == 'replace']
@@ -987,6 +1000,30 @@ def r10_index_scenarios(rep, src):
         # read as text -- like a local copy or an index that cannot be decoded, that is a reason for the full download, not an error
         for bad_patch, local in (('P1', 'h1'), ('P2', 'h1'), ('P0', 'h0'), ('P3', 'h3')):
             judge('C19.R8', '[%s] patch %s cannot be decoded (a version that is not UTF-8), local copy at %s' % (prefix, bad_patch, local), index(), local, False, (bad_patch,))
+        # a patch the index lists faithfully but that cannot be used here (a command the ed reader does not know, an address beyond the
+        # file): the full download -- the repository is intact, only this way of getting there is closed
+        for bad_patch, local in (('P1', 'h1'), ('P2', 'h1'), ('P0', 'h0')):
+            judge('C19.R4', '[%s] patch %s cannot be parsed as an ed script, local copy at %s' % (prefix, bad_patch, local), index(), local, False, unparsable=(bad_patch,))
+            judge('C19.R4', '[%s] patch %s cannot be applied to the lines, local copy at %s' % (prefix, bad_patch, local), index(), local, False, unappliable=(bad_patch,))
+        # integrity: a downloaded patch that is not the one the index lists, or a result that is not the content the index announces,
+        # ends in an error with nothing written (the statement's second sentence)
+        for bad_patch, local in (('P1', 'h1'), ('P3', 'h1'), ('P0', 'h0')):
+            out_, log_ = _interpret_update(src, index(), local, prefix, garbled=(bad_patch,))
+            what_ = '[%s] the download of patch %s does not have the hash the index lists, local copy at %s' % (prefix, bad_patch, local)
+            if out_[0] == 'raise' and not any(e_[0] in ('replace',) for e_ in log_) and ('apply', bad_patch) not in log_:
+                rep.ok('C19.R1', f.site, what_, 'raises %s before the patch is applied, nothing written' % out_[1])
+            else:
+                rep.fail('C19.R1', f.site, what_, '%s after %s; expected an error before the patch is applied and nothing written' % (
+                    'raises %s' % out_[1] if out_[0] == 'raise' else 'returns %r' % (out_[1],), ', '.join(' '.join(map(str, e_)) for e_ in log_[1:]) or 'nothing'), where=f.where)
+        for local in ('h0', 'h1', 'h3'):
+            out_, log_ = _interpret_update(src, index(current='hOTHER 99'), local, prefix)
+            what_ = '[%s] the patched result is not the content the index announces as current, local copy at %s' % (prefix, local)
+            if out_[0] == 'raise' and not any(e_[0] == 'replace' for e_ in log_):
+                rep.ok('C19.R1', f.site, what_, 'raises %s, nothing written' % out_[1])
+            else:
+                rep.fail('C19.R1', f.site, what_, '%s after %s; expected an error and nothing written (a result that does not match the recorded hash must not replace the local '
+                         'file)' % ('raises %s' % out_[1] if out_[0] == 'raise' else 'returns %r' % (out_[1],), ', '.join(' '.join(map(str, e_)) for e_ in log_[1:]) or 'nothing'),
+                         where=f.where)
         # blank lines between the entries are not entries
         judge('C19.R7', '[%s] history with an empty line between the entries, local copy at h1' % prefix,
               [[(prefix + '-Current', 'hC 99'), (prefix + '-History', '\n h0 10 P0\n\n h1 10 P1\n h0 10 P2\n h3 10 P3\n'),
@@ -1042,14 +1079,24 @@ def r9_faithful_io(rep, src):
         for p_, d_ in zip(a.args[len(a.args) - len(a.defaults):], a.defaults):
             if isinstance(d_, ast.Constant):
                 defaults[p_.arg] = d_.value
+        here = 0
         for c in walk_no_nested(f.node):
-            if not (isinstance(c, ast.Call) and norm(c.func) in ('open', 'gzip.open', 'io.open', 'codecs.open')):
+            if not (isinstance(c, ast.Call) and norm(c.func) in ('open', 'gzip.open', 'io.open', 'codecs.open', 'io.TextIOWrapper', 'TextIOWrapper', 'gzip.GzipFile', 'GzipFile',
+                                                                  'os.fdopen', 'bz2.open', 'lzma.open')):
                 continue
             kw = {k.arg: k.value for k in c.keywords if k.arg}
-            mode_node = c.args[1] if len(c.args) > 1 else kw.get('mode')
-            mode = mode_node.value if isinstance(mode_node, ast.Constant) else ('rb' if norm(c.func) == 'gzip.open' else 'r') if mode_node is None else None
+            fname_ = norm(c.func)
+            if fname_.endswith('TextIOWrapper'):
+                # a text layer over a binary stream: text mode by construction, the same encoding / newline / errors parameters as open()
+                mode_node = ast.Constant('rt' if role == 'read' else 'wt')
+            elif fname_.endswith('GzipFile'):
+                mode_node = ast.Constant('rb' if role == 'read' else 'wb')          # GzipFile has no text mode
+            else:
+                mode_node = c.args[1] if len(c.args) > 1 else kw.get('mode')
+            mode = mode_node.value if isinstance(mode_node, ast.Constant) else ('rb' if fname_ in ('gzip.open', 'bz2.open', 'lzma.open') else 'r') if mode_node is None else None
             what = '%s stream `%s`' % (role, norm(c)[:70])
             n += 1
+            here += 1
             if mode is None:
                 raise AnalysisError('%s: mode of %s is not a constant' % (f.site, norm(c)[:60]))
             if 'b' in mode and 't' not in mode:
@@ -1064,7 +1111,10 @@ def r9_faithful_io(rep, src):
             if not isinstance(encv, str) or encv.upper().replace('_', '-') != want_enc:
                 problems.append('the text encoding is %s while the hashes are taken over the %s encoding of the lines: outside a %s locale the content is garbled or the read fails'
                                 % ('the locale\'s default' if enc is None else repr(encv), want_enc, want_enc))
-            if nlv not in (('\n',) if role == 'read' else ('', '\n', None)):        # writing with newline=None maps LF to os.linesep: the identity on POSIX (assumed)
+            if role == 'read' and nlv == '':
+                problems.append('newline=\'\' keeps every byte but still ends a line at a lone CR (and the other readers do not): a text line with a CR in it becomes two list '
+                                'elements, the line numbers of every later patch below it are off by one and the chain ends in "patch failed" on every run')
+            elif nlv not in (('\n',) if role == 'read' else ('', '\n', None)):        # writing with newline=None maps LF to os.linesep: the identity on POSIX (assumed)
                 problems.append('newline translation is on (newline=%r): a CR LF or lone CR in the published content is %s, so the local file and the returned lines differ from '
                                 'the published bytes and the file is never recognised as current' % (None if nlv is None else nlv, 'read as LF' if role == 'read' else 'rewritten'))
             if errs is not None and not (isinstance(errs, ast.Constant) and errs.value == 'strict'):
@@ -1073,6 +1123,8 @@ def r9_faithful_io(rep, src):
                 rep.fail('C19.R9', f.site, what, '; '.join(problems), where='%s:%d' % (f.module.relpath, c.lineno))
             else:
                 rep.ok('C19.R9', f.site, what, 'text, %s, no newline translation' % want_enc)
+        if not here:
+            raise AnalysisError('%s: no stream constructor found (open, gzip.open, io.TextIOWrapper, ...): how the content is %s is not visible' % (f.site, 'read' if role == 'read' else 'written'))
     if n < 3:
         raise AnalysisError('only %d content streams found (3 confirmed on the pinned tree: local read, download, replacement write)' % n)
 
@@ -1093,17 +1145,54 @@ def check(src, rep, tier):
     rep.need('C19.R6', 1)
     rep.need('C19.R7', 14)
     rep.need('C19.R8', 60)
-    g = rep.guard('C19.R1', r1_verify_before_replace, src)
+    # update_file interpreted on scenarios (r10) decides, on those scenarios, the clauses that the shape-based readings R1 (both hash
+    # comparisons in front of the replacement), R4 (a patch that cannot be used leads to the full download), R7 (the chain keeps order
+    # and multiplicity) and R8 (malformed entries) decide on the paths of today's spelling.  Where every scenario holds, a report of
+    # one of those shape-based readings says that the code is written otherwise than the reading expects -- it is recorded as
+    # information, not as a violation; where a scenario fails, both are reported.
+    n_before = len(rep.violations)
+    n_err = len(rep.errors)
+    rep.guard('C19.R7', r10_index_scenarios, src)
+    scenarios_hold = len(rep.violations) == n_before and len(rep.errors) == n_err
+
+    class Soft:
+        # the shape-based readings of R1 / R4 / R7 report through this
+        def __init__(self, rep_):
+            self._rep = rep_
+
+        def fail(self, rule, site, construct, msg, detail=None, where=None):
+            if scenarios_hold:
+                self._rep.info.append('%s %s: the shape-based reading reports "%s" -- not confirmed by any of the interpreted scenarios of update_file, which all hold' % (
+                    rule, site, msg[:200]))
+            else:
+                self._rep.fail(rule, site, construct, msg, detail, where)
+
+        def error(self, rule, msg):
+            if scenarios_hold:
+                self._rep.info.append('%s: the shape-based reading does not apply (%s); decided on the interpreted scenarios' % (rule, msg[:200]))
+            else:
+                self._rep.error(rule, msg)
+
+        def guard(self, rule, fn, *a, **kw):
+            try:
+                return fn(self, *a, **kw)
+            except AnalysisError as e:
+                self.error(rule, str(e))
+            return None
+
+        def __getattr__(self, name):
+            return getattr(self._rep, name)
+    soft = Soft(rep)
+    g = soft.guard('C19.R1', r1_verify_before_replace, src)
     rep.guard('C19.R2', r2_single_writer, src)
     rep.guard('C19.R3', r3_replace_protocol, src)
     if g is not None:
-        rep.guard('C19.R4', r4_fallbacks, src, g)
+        soft.guard('C19.R4', r4_fallbacks, src, g)
     rep.guard('C19.R5', r5_hash_backends, src)
     rep.need('C19.R9', 3)
     rep.guard('C19.R9', r9_faithful_io, src)
     rep.guard('C19.R6', r6_temp_download, src)
-    rep.guard('C19.R7', r7_history_order, src, g)
-    rep.guard('C19.R8', r8_malformed_entries, src)
-    rep.guard('C19.R7', r10_index_scenarios, src)
+    soft.guard('C19.R7', r7_history_order, src, g)
+    soft.guard('C19.R8', r8_malformed_entries, src)
     from . import common
     rep.guard('C19.R4', common.check_error_construction, src, 'C19.R4', 'debian_support', ('update_file', 'download_file', 'download_gunzip_lines', 'replace_file'), 0)
